@@ -8,7 +8,8 @@ From Coq Require Import List Arith Bool.
 From M Require Import Base Flat Hsm HsmSpec.
 From P Require Import HsmForest HsmResolve HsmReach HsmInit.
 From M Require HReent.
-From P Require HReentInv.
+From P Require HReentInv HsmQueueP.
+From M Require Queue HsmQueueIO.
 Import ListNotations.
 
 Section C02.
@@ -120,6 +121,17 @@ Theorem C02_reentrant_invariants :
     uniq f' = true /\ reg hm f' /\ closed hm f'.
 Proof. exact HReentInv.hreent_invariants. Qed.
 Print Assumptions C02_reentrant_invariants.
+
+(* "... or through the queue": on a queued hierarchical machine with any number of models, whatever programs of
+   triggers, removals and raises the callbacks run, every model's configuration keeps unique sibling names,
+   registered states and the closure of initial substates after every top-level call. *)
+Theorem C02_queued_invariants :
+  forall (hm : hmachine) (ev : env) fuel (w : HsmQueueIO.hworld) s m e a bs r w' s',
+    wf_defs hm = true -> depth_ok hm -> HsmQueueP.all_good hm w ->
+    Queue.top_trigger (HsmQueueIO.hqstep hm ev) HsmQueueIO.hnested_payload fuel w s m e a = Some (bs, r, w', s') ->
+    HsmQueueP.all_good hm w'.
+Proof. exact HsmQueueP.hq_invariants. Qed.
+Print Assumptions C02_queued_invariants.
 
 (* non-vacuity: a transition between two regions' states in a parallel state *)
 Example C02_example :
